@@ -38,7 +38,7 @@ import (
 	"verifharness/tracelog"
 )
 
-const marker = "zz"
+const markerPrefix = "zz" // marker keys sort after every other key (being given one implies the whole snapshot was given) and are fresh for every settle point
 
 var bound = 30 * time.Second
 
@@ -78,7 +78,7 @@ type client struct {
 	cond   *sync.Cond
 	held   bool
 	done   bool
-	marker int // highest marker version delivered
+	marker int // highest marker number delivered
 	cancel context.CancelFunc
 	sc     *syncclient.SyncerClient
 }
@@ -146,8 +146,10 @@ func (c *client) OnUpdates(us []api.Update) {
 			vv, _ = strconv.Atoi(s)
 		}
 		kvs = append(kvs, map[string]any{"k": k.Name, "ver": ver, "del": u.Value == nil, "vv": vv})
-		if k.Name == marker && u.Value != nil && ver > c.marker {
-			c.marker = ver
+		if strings.HasPrefix(k.Name, markerPrefix) && u.Value != nil {
+			if n, err := strconv.Atoi(k.Name[len(markerPrefix):]); err == nil && n > c.marker {
+				c.marker = n
+			}
 		}
 	}
 	c.pl.emit(c.name, "c_upd", map[string]any{"c": c.name, "kvs": kvs})
@@ -168,10 +170,12 @@ type drv struct {
 	clients map[string]*client
 	order   []string
 	pad     int
+	nmark   int
 }
 
 func (d *drv) begin(t int, keys, clients []string, maxBatch, maxMsg, pad int) {
-	d.pl.log.Reset(t, map[string]any{"keys": append(append([]string{}, keys...), marker), "clients": clients})
+	d.pl.log.Reset(t, map[string]any{"keys": keys, "clients": clients})
+	d.nmark = 0
 	d.pl.seq = map[string]int{}
 	d.ctx, d.cancel = context.WithCancel(context.Background())
 	d.vers, d.present = map[string]int{}, map[string]bool{}
@@ -304,25 +308,69 @@ func (d *drv) hold(name string, on bool) {
 	c.mu.Unlock()
 }
 
-// settle: write the marker and wait until every client that is not held has been given it
+// settle: write a fresh marker key (deleting the previous one), wait until the cache has published it and
+// until every client that is not held has been given it.  The marker sorts last, so a client that finds it in
+// its snapshot has been given the whole snapshot; being fresh it cannot be swallowed by de-duplication.
+// If a marker does not arrive within an attempt's
+// patience another fresh marker is written (it can only get lost when the code under test loses updates; the
+// next one then still arrives and the loss is judged at "quiesce" instead of becoming a time-out).  The
+// overall wait is bounded; exceeding it is a harness error.
 func (d *drv) settle() {
-	d.up([]kv{{K: marker}})
-	want := d.vers[marker]
 	deadline := time.Now().Add(bound)
-	for _, n := range d.order {
-		c := d.clients[n]
-		c.mu.Lock()
-		for !c.held && c.marker < want {
-			if time.Now().After(deadline) {
-				c.mu.Unlock()
-				fatal("timeout: client %s was not given marker version %d within %v (trace %d)", n, want, bound, d.pl.log.T)
-			}
-			// cond.Wait has no timeout: poll with a short sleep outside the lock
-			c.mu.Unlock()
-			time.Sleep(100 * time.Microsecond)
-			c.mu.Lock()
+	patience := 2 * time.Second
+	for {
+		items := []kv{}
+		if d.nmark > 0 {
+			items = append(items, kv{K: markerPrefix + strconv.Itoa(d.nmark), Del: true})
 		}
-		c.mu.Unlock()
+		d.nmark++
+		name := markerPrefix + strconv.Itoa(d.nmark)
+		items = append(items, kv{K: name})
+		d.up(items)
+		want := d.nmark
+		path, err := model.KeyToDefaultPath(model.GlobalConfigKey{Name: name})
+		if err != nil {
+			fatal("%v", err)
+		}
+		attemptEnd := time.Now().Add(patience)
+		ok := true
+		// (1) the cache has published the marker
+		for {
+			if _, found := d.cache.CurrentBreadcrumb().KVs.Get(syncproto.SerializedUpdate{Key: path}); found {
+				break
+			}
+			if time.Now().After(deadline) {
+				fatal("timeout: the cache did not publish marker %d within %v (trace %d)", want, bound, d.pl.log.T)
+			}
+			time.Sleep(50 * time.Microsecond)
+		}
+		// (2) every client that is not held has been given it
+		for _, n := range d.order {
+			c := d.clients[n]
+			c.mu.Lock()
+			for !c.held && c.marker < want {
+				now := time.Now()
+				if now.After(deadline) {
+					c.mu.Unlock()
+					fatal("timeout: client %s was not given marker %d within %v (trace %d)", n, want, bound, d.pl.log.T)
+				}
+				if now.After(attemptEnd) {
+					ok = false
+					break
+				}
+				c.mu.Unlock()
+				time.Sleep(100 * time.Microsecond)
+				c.mu.Lock()
+			}
+			c.mu.Unlock()
+			if !ok {
+				break
+			}
+		}
+		if ok {
+			return
+		}
+		patience *= 2
 	}
 }
 
@@ -348,8 +396,12 @@ func (d *drv) step(op map[string]any) {
 	case "status":
 		d.status(tracelog.Str(op["s"]))
 	case "join":
+		// scripted runs: the join happens at a defined point of the upstream sequence (everything written so far
+		// has been published, and the new connection has taken its snapshot before the next write)
 		bin, _ := op["bin"].(bool)
+		d.settle()
 		d.join(tracelog.Str(op["c"]), bin)
+		d.settle()
 	case "hold":
 		d.hold(tracelog.Str(op["c"]), true)
 	case "release":
